@@ -239,11 +239,11 @@ def spec_strategy(draw):
     base = draw(st.lists(member(), min_size=1, max_size=4, unique_by=lambda m: m["name"]))
     sub = draw(st.lists(member(), min_size=0, max_size=4, unique_by=lambda m: m["name"]))
     # an instance attribute that shadows a class-level member of the same name is outside the domain (metadata is per class)
-    classlevel = {m["name"] for m in base + sub if m["kind"] not in ("iattr", "helper")} | {"zz_sync"}
+    classlevel = {m["name"] for m in base + sub if m["kind"] not in ("iattr", "helper")} | {"zz_sync", "zz_base"}
     base = [m for m in base if m["kind"] not in ("iattr", "helper") or m["name"] not in classlevel]
     sub = [m for m in sub if m["kind"] not in ("iattr", "helper") or m["name"] not in classlevel]
     if not base:
-        base = [{"name": "eps", "kind": "method", "exposed": True, "oneway": False}]
+        base = [{"name": "zz_base", "kind": "method", "exposed": True, "oneway": False}]
     return {"base": base, "sub": sub, "base_exposed": draw(st.booleans()), "sub_exposed": draw(st.booleans())}
 
 
